@@ -22,6 +22,7 @@ type NetConn struct {
 	Writes      int
 	WriteErrAt  int
 	ReadErrAt   int
+	ReadErrOnce bool // the read fault is transient: only the read with index ReadErrAt fails
 	EOFErr      error  // error returned at end of input (default io.EOF)
 	EOFWithData bool   // the read that delivers the last input bytes also returns the end-of-input error
 	OnWrite     func() // called at the start of every Write (e.g. zz.Slow)
@@ -43,7 +44,7 @@ func (c *NetConn) Read(b []byte) (int, error) {
 	}
 	idx := c.Reads
 	c.Reads++
-	if c.ReadErrAt >= 0 && idx >= c.ReadErrAt {
+	if c.ReadErrAt >= 0 && (idx == c.ReadErrAt || (idx > c.ReadErrAt && !c.ReadErrOnce)) {
 		return 0, ErrInjected
 	}
 	if c.ReadLimit > 0 && c.Pos >= c.ReadLimit {
